@@ -61,6 +61,38 @@ CHECKS.update({
         technique='Lean state-machine model + history correspondence + invariant oracle (invariant proof staged)',
         design='6/C09'),
 })
+CHECKS.update({
+    'C10': dict(
+        level='translation_validation',
+        text='The Lean renderer models are functions of the content alone; after every random sequence of 1-15 in-place edits '
+             '(30 edit kinds, renderings evaluated before and between edits) db.sql and db.dbml of the real objects must equal '
+             'the model rendering of the content read off the live objects, and (model-free oracle) every database and element '
+             'rendering must equal that of a database freshly built with the final content.',
+        note='no theorem is specific to C10: freedom from caches is a property of the implementation, reached only through the correspondence and the fresh-build oracle',
+        technique='Lean renderer model + differential correspondence after edit histories + fresh-build oracle',
+        design='6/C10'),
+    'C16': dict(
+        level='proof',
+        text='Lean theorems state the dispatch logic outright (attached top-level elements and columns use the configured '
+             'renderer classes, detached elements and owner-less kinds the defaults, a missing handler yields the empty string) '
+             'and prove the join structure of db.dbml / db.sql in the model (each element rendering once, in the documented '
+             'order; tables exactly once via C18.perm). The dispatch model is tied to the code by enumerating handler subsets x '
+             'element kinds x attachment x 5 parser routes; join structure and absence of side effects are checked by oracle on '
+             'the real renderers (all renderings in random orders with repeats, model snapshot before/after).',
+        note='purity is monitored, not proved (definitional in Lean); trusted: Lean kernel, standard axioms, hand-written model tied by sampling',
+        technique='Lean 4 proof (dispatch decision logic, join structure) + exhaustive/sampled correspondence + purity monitor',
+        design='6/C16'),
+    'C17': dict(
+        level='proof',
+        text='Decision logic stated outright and proved in Lean over the model of check_attributes_for_sql and the reference '
+             'validations (required attribute unset -> AttributeMissing; detached endpoint -> TableNotFound in SQL and DBML; mixed '
+             'side -> DBMLError for table1/table2/dbml; composite inline -> DBMLError; detached get_refs). The model is tied to '
+             'the real classes by exhaustive enumeration of the finite case space (element kinds x unset subsets x attachment x '
+             'construction route; all endpoint assignments x kinds x inline), and the statement is evaluated directly on the real objects.',
+        note='trusted: Lean kernel, standard axioms; model tied by exhaustive enumeration of its finite domain',
+        technique='Lean 4 proof of decision logic + exhaustive correspondence',
+        design='6/C17'),
+})
 UNDER_CONSTRUCTION = 'check under construction (model and harness being built; see DESIGN.md)'
 
 
